@@ -383,3 +383,52 @@ func VH_C17_stateloop_follower_timer() {
 	vAssert(step >= 5, "script-completed")
 	vReach("end")
 }
+
+//verif:check C17 stubs=rt,timers,valuefile,abslog onblock=violation reach=aborted,contact desc="real stateLoop of a follower that is not a voter in its own configuration (a node being added, or promoted but not yet told): after it has heard from the leader, silence is still noticed - its election timer runs, so that after an election timeout it forgets the leader (it does not campaign) and stops refusing other voters' vote requests with leader-known; otherwise a majority that includes this node cannot elect anyone until a dead connection is torn down" bounds="node 1 non-voter, nodes 2 (leader) and 3 voters; event script: first timeout, one append from the leader, silence, vote request from node 3"
+func VH_C17_stateloop_nonvoter_silent_leader() {
+	r := vLoopNode(Follower)
+	cfg := Config{Nodes: map[uint64]Node{1: {ID: 1, Addr: vAddr(1)}, 2: {ID: 2, Addr: vAddr(2), Voter: true}, 3: {ID: 3, Addr: vAddr(3), Voter: true}}, Index: 1, Term: 1}
+	a := vAbs(r.log)
+	a.ents[0] = vEncodeEntry(cfg.encode())
+	r.configs.Latest, r.configs.Committed = cfg, cfg
+	r.votedFor, r.termVal.v2 = 0, 0
+	vDiskInit(".term", 1, 0)
+	var w bytes.Buffer
+	if err := (&appendReq{req: req{1, 2}, prevLogIndex: 1, prevLogTerm: 1, ldrCommitIndex: 1}).encode(&w); err != nil {
+		panic(err)
+	}
+	c, _ := vMkConn(w.Bytes())
+	hb := &rpc{req: &appendReq{}, conn: c, done: make(chan struct{})}
+	vote := &voteReq{req: req{2, 3}, lastLogIndex: 1, lastLogTerm: 1}
+	cv, _ := vMkConn(nil)
+	xv := &rpc{req: vote, conn: cv, done: make(chan struct{})}
+	step := 0
+	vSetIdleHook(func() {
+		vDrainFSM(r)
+		switch step {
+		case 0:
+			vAssert(vFire(r.timer), "timer-armed-at-start")
+		case 1:
+			vAssert(r.state == Follower && r.leader == 0, "NV-non-voter-does-not-campaign")
+			vReach("aborted")
+			vOffer(r.rpcCh, hb)
+		case 2:
+			vAssert(isClosed(hb.done) && hb.resp.getResult() == success && r.leader == 2, "append-answered")
+			vReach("contact")
+			// the leader falls silent (it sends no idle heartbeats to a non-voter anyway)
+			vAssert(vFire(r.timer), "NV-election-timer-runs-after-leader-contact")
+		case 3:
+			vAssert(r.state == Follower && r.leader == 0, "NV-silent-leader-forgotten")
+			vOffer(r.rpcCh, xv)
+		case 4:
+			vAssert(isClosed(xv.done) && xv.resp.getResult() == success, "NV-vote-request-processed-once-the-leader-is-forgotten")
+			r.doClose(ErrServerClosed)
+		default:
+			if !r.isClosed() {
+				r.doClose(ErrServerClosed)
+			}
+		}
+		step++
+	})
+	r.stateLoop()
+}
